@@ -3,6 +3,11 @@
 # check of its property and compares with the expected verdict in seeded/EXPECTED (caught / missed). Run after every
 # engine or contract change: a seed that used to be caught and now passes means a vacuity hole or a lost clause.
 cd /verif
+# the run works on one fixed revision of /repo and a private copy of the checker, so that work may go on meanwhile
+export SEED_REV=$(git -C /repo rev-parse HEAD)
+export GOVC=/var/tmp/govc_selftest_$$
+cp bin/govc $GOVC
+trap 'rm -f $GOVC' EXIT
 
 fail=0
 for dir in seeded seeded2 seeded3; do
